@@ -146,6 +146,23 @@ def ref_prog(steps, b0):
     return out
 
 
+_LF_EPOCHS = {}
+
+
+def _epoch_with_line_end(keys, cmd, tdata, n):
+    """The n-th timestamp >= 0x61000000 for which ciphertext + signature of the task end in 0x0a or 0x0d."""
+    k = (keys[0], keys[1], cmd, tdata)
+    found = _LF_EPOCHS.setdefault(k, [])
+    e = found[-1] + 1 if found else 0x61000000
+    while len(found) < n:
+        tp = struct.pack(">IIII", e, len(tdata) + 8, cmd, len(tdata)) + tdata
+        ct, sig = RA.encrypt_packet(tp, keys[0], keys[1])
+        if sig[-1] in (0x0A, 0x0D):
+            found.append(e)
+        e += 1
+    return found[n - 1]
+
+
 class Session:
     """One execution: real client <-> reference server, wire log, ground-truth packet log."""
 
@@ -205,6 +222,12 @@ class Session:
                 epoch = self.pending_task[2] if len(self.pending_task) > 2 else 0x60000000 + self.task_no
                 self.pending_task = None
                 self.task_no += 1
+                if cmd == 6:
+                    # the command-6 task gets a timestamp for which the encrypted packet ENDS in a CR or LF byte (the
+                    # n-th such timestamp for the n-th such task of the session), so that response bodies ending in
+                    # line-end bytes occur in every session that contains one - not once in 128 by chance
+                    self.lf_tasks = getattr(self, "lf_tasks", 0) + 1
+                    epoch = _epoch_with_line_end(self.keys, cmd, tdata, self.lf_tasks)
                 tp = struct.pack(">IIII", epoch, len(tdata) + 8, cmd, len(tdata)) + tdata
                 ct, sig = RA.encrypt_packet(tp, self.keys[0], self.keys[1])
                 body_plain = ct + sig
